@@ -42,7 +42,16 @@ func (g *G) typ(d int, allowAny bool) *ty {
 		if g.r.Chance(1, 14) {
 			return barrOf(g.r.Intn(5))
 		}
-		return scalar(lib.Pick(g.r, scalarKinds))
+		k := lib.Pick(g.r, scalarKinds)
+		if _, ok := namedScalarRT[k]; ok && g.r.Chance(1, 4) {
+			g.c.Hit("type-named-scalar")
+			return namedScalar(k) // a declared named type: takes the encoders' reflect fallback
+		}
+		return scalar(k)
+	}
+	if g.r.Chance(1, 12) {
+		g.c.Hit("type-named-composite")
+		return lib.Pick(g.r, namedComposites())
 	}
 	switch g.r.Weighted([]int{3, 4, 2, 4, 6, 2}) {
 	case 0:
@@ -118,16 +127,16 @@ func (g *G) structTyp(d int, allowAny, allowInlineMap bool) *ty {
 
 var intEdges = map[int][]int64{
 	8:  {0, 1, -1, math.MaxInt8, math.MinInt8},
-	16: {0, 1, -1, math.MaxInt16, math.MinInt16, 255},
-	32: {0, 1, -1, math.MaxInt32, math.MinInt32, 65536},
-	64: {0, 1, -1, math.MaxInt64, math.MinInt64, 1 << 53, -(1 << 53), 1<<53 + 1, math.MaxInt32 + 1},
+	16: {0, 1, -1, math.MaxInt16, math.MinInt16, 255, 128, -129},
+	32: {0, 1, -1, math.MaxInt32, math.MinInt32, 65536, 32768, -32769},
+	64: {0, 1, -1, math.MaxInt64, math.MinInt64, 1 << 53, -(1 << 53), 1<<53 + 1, math.MaxInt32 + 1, math.MinInt32 - 1},
 }
 
 var uintEdges = map[int][]uint64{
 	8:  {0, 1, math.MaxUint8, 128},
-	16: {0, 1, math.MaxUint16, 256},
-	32: {0, 1, math.MaxUint32, 1 << 31},
-	64: {0, 1, math.MaxUint64, math.MaxInt64, math.MaxInt64 + 1, 1 << 53, 1<<53 + 1},
+	16: {0, 1, math.MaxUint16, 256, 255},
+	32: {0, 1, math.MaxUint32, 1 << 31, 65536, 65535},
+	64: {0, 1, math.MaxUint64, math.MaxInt64, math.MaxInt64 + 1, 1 << 53, 1<<53 + 1, math.MaxUint32 + 1, math.MaxUint32},
 }
 
 var f64Edges = []uint64{0, 1 << 63, 0x3FF0000000000000, 0x7FF0000000000000, 0xFFF0000000000000, 0x7FF8000000000001, 0x7FF0000000000001, 1, 0x000FFFFFFFFFFFFF, 0x7FEFFFFFFFFFFFFF, 0x4340000000000000, 0xC1E0000000000000, 0x3FB999999999999A}
